@@ -1,0 +1,17 @@
+// This Source Code Form is subject to the terms of the Mozilla Public
+// License, v. 2.0. If a copy of the MPL was not distributed with this
+// file, You can obtain one at http://mozilla.org/MPL/2.0/.
+
+//go:build verif
+
+package namespaced
+
+// Contracts for the deductive verifier in /verif (govc). Comment-only file: it
+// adds no code. Lines starting with //@ are parsed by govc; see /verif/DESIGN.md.
+
+// C01: every caller of a namespace gets the one state instance published for it, also when several
+// callers race on the first use (the map hands the same published value to all of them).
+//@ func (*State).getNamespace
+//@   props C01
+//@   requires [wired] st != nil && st.namespaces != nil && st.builder != nil
+//@   ensures [one-instance-per-namespace] result == published(st.namespaces, ns)
